@@ -732,6 +732,106 @@ def gen_rescale(rng):
             "ch": rng.randrange(nch) if rng.random() < 0.5 else 0, "xs": xs}
 
 
+# ------------------------------------------------------------------------------------------------
+# tosa.rescale (+ tosa.clamp) -> kernel.rescale (convert-tosa-to-kernel)
+TOSA_SRC = """%0 = "test.op"() : () -> tensor<4x8xi32>
+%input_zp = "tosa.const"() <{ values = dense<@ZI@> : tensor<1xi32> }> : () -> tensor<1xi32>
+%output_zp = "tosa.const"() <{ values = dense<@ZO@> : tensor<1xi32> }> : () -> tensor<1xi32>
+%multiplier = "tosa.const"() <{ values = dense<@MU@> : tensor<1xi32> }> : () -> tensor<1xi32>
+%shift = "tosa.const"() <{ values = dense<@SH@> : tensor<1xi32> }> : () -> tensor<1xi32>
+%1 = tosa.rescale %0, %multiplier, %shift, %input_zp, %output_zp {rounding_mode = @RM@, per_channel = false, scale32 = true, input_unsigned = false, output_unsigned = false} : (tensor<4x8xi32>, tensor<1xi32>, tensor<1xi32>, tensor<1xi32>, tensor<1xi32>) -> tensor<4x8x@TY@>
+@USER@
+@EXTRA@"test.op"(%res) : (tensor<4x8x@TY@>) -> ()
+"""
+
+
+def render_tosa_case(c):
+    ty = f"i{c['out']}"
+    if c["clamp"] is None:
+        user = f'%res = "test.op"(%1) : (tensor<4x8x{ty}>) -> tensor<4x8x{ty}>'
+    else:
+        user = (f"%res = tosa.clamp %1 {{max_val = {c['clamp'][1]} : {ty}, min_val = {c['clamp'][0]} : {ty}}} : "
+                f"(tensor<4x8x{ty}>) -> tensor<4x8x{ty}>")
+    extra = "".join(f'"test.op"(%1) : (tensor<4x8x{ty}>) -> ()\n' for _ in range(c["users"] - 1))
+    return (TOSA_SRC.replace("@USER@", user).replace("@EXTRA@", extra).replace("@TY@", ty)
+            .replace("@ZI@", str(c["input_zp"])).replace("@ZO@", str(c["output_zp"]))
+            .replace("@MU@", str(c["multiplier"][0])).replace("@SH@", str(c["shift"][0]))
+            .replace("@RM@", "DOUBLE_ROUND" if c["double_round"] else "SINGLE_ROUND"))
+
+
+def signed_range(w):
+    return -(1 << (w - 1)), (1 << (w - 1)) - 1
+
+
+def gen_tosa(rng):
+    out = rng.choice([8, 8, 8, 16, 32, 32])
+    lo_t, hi_t = signed_range(out)
+    r = rng.random()
+    if r < 0.55:
+        clamp = None               # the rescale's single user is not a clamp: the bounds default to the output range
+    elif r < 0.75:
+        clamp = [lo_t, hi_t]
+    else:
+        a, b = sorted([rng.randint(max(lo_t, -300), 0), rng.randint(0, min(hi_t, 300))])
+        clamp = [a, b]
+    s = rng.choice([1, 8, 20, 30, 31, 33, 37, 40, rng.randint(1, 45)])
+    m = rng.choice([1 << 30, 1085889731, 1518500250, rng.randint(1 << 29, (1 << 31) - 1), 1, 3])
+    zi = rng.choice([0, 0, 5, -7, rng.randint(-128, 127)])
+    zo = rng.choice([0, 0, -3, 100, -128, rng.randint(-128, 127)])
+    lo, hi = clamp if clamp is not None else (lo_t, hi_t)
+    # inputs whose rescaled value reaches / exceeds the saturation bounds, sits next to them, and ordinary values
+    targets = [lo - 300, lo - 2, lo - 1, lo, lo + 1, -1, 0, 1, 5, hi - 1, hi, hi + 1, hi + 2, hi + 3, hi + 300, 127, 128, 129, -128, -129]
+    xs = []
+    for t in targets:
+        x = ((t - zo) << s) // m + zi + rng.choice([0, 0, 1])
+        xs.append(max(-2**31, min(2**31 - 1, x)))
+    for _ in range(6):
+        xs.append(rng.choice([rng.randint(-2**31, 2**31 - 1), rng.randint(-10**6, 10**6), 2**31 - 1, -2**31]))
+    return {"kind": "tosa", "out": out, "users": 1 if rng.random() < 0.92 else 2, "clamp": clamp, "input_zp": zi,
+            "output_zp": zo, "multiplier": [m], "shift": [s], "double_round": rng.random() < 0.15, "xs": xs}
+
+
+# ------------------------------------------------------------------------------------------------
+# SupportedKernel.is_same_kernel on the declarations of the real accelerators / xdma extensions
+KERNEL_KINDS = ["add", "mul", "mac", "qmac", "rescale"]
+_DECLS = None
+
+
+def declared_kernels():
+    """(owner, SupportedKernel) for every declaration of the tree under test"""
+    global _DECLS
+    if _DECLS is None:
+        from snaxc.accelerators.snax_alu import SNAXAluAccelerator
+        from snaxc.accelerators.snax_gemmx import SNAXGEMMXAccelerator
+        from snaxc.accelerators.streamers.extensions import XDMA_EXT_SET
+        d = [("snax_gemmx", k) for k in SNAXGEMMXAccelerator.supported_kernels]
+        d += [("snax_alu", k) for k in SNAXAluAccelerator.supported_kernels]
+        d += [(f"snax_xdma/{e.__name__}", e.supported_kernel) for e in XDMA_EXT_SET if getattr(e, "supported_kernel", None)]
+        _DECLS = d
+    return _DECLS
+
+
+def type_grid(kind, template_len):
+    """every i8/i16/i32/i64 combination of operand and result types when the arity fits the declaration,
+    else one representative list"""
+    arity = KERNEL_NOPS[kind] + 1
+    if arity != template_len:
+        return [[32] * arity]
+    return [list(t) for t in itertools.product(WIDTHS, repeat=arity)]
+
+
+def make_kernel_op(kind, tys):
+    from snaxc.dialects import kernel
+    from xdsl.dialects import test
+    from xdsl.dialects.builtin import IntegerType
+    ts = [IntegerType(w) for w in tys]
+    operands = [test.TestOp(result_types=[t]).results[0] for t in ts[:-1]]
+    if kind == "rescale":
+        return kernel.RescaleOp(operands[0], ts[-1], 0, 0, [1073741824], [30], 127, -128, False)
+    cls = {"add": kernel.AddOp, "mul": kernel.MulOp, "mac": kernel.MacOp, "qmac": kernel.QMacOp}[kind]
+    return cls(operands=operands, result_types=[ts[-1]])
+
+
 DISPATCH_ACCS = ["snax_alu", "snax_gemmx", "snax_hwpe_mult"]
 
 
@@ -765,7 +865,8 @@ class C18(Prop):
         "arith semantics (two's complement, extsi = sign extension, shrsi >= width = poison) is the model's evalBody; it is "
         "cross-checked on every case against the harness interpreter that runs on the real xDSL IR",
         "the accelerators' supported_kernels tables are read from the real classes on every run and passed to the model",
-        "convert_tosa_to_kernel.py is not modelled (tosa.rescale syntax of the upstream test is not parsable with the installed xDSL)",
+        "convert_tosa_to_kernel.py RescaleClampPattern is modelled as tosaToKernel (constant parameters, static tensor shapes; the "
+        "tensor.empty / tensor.dim plumbing is exercised, not modelled); SupportedKernel.is_same_kernel as isSameKernel",
     ]
     assumptions = [
         "bodies: one block, signless integer types i8/i16/i32/i64, ops with one result, terminated by linalg.yield; "
@@ -803,6 +904,11 @@ class C18(Prop):
             yield gen_fused(rng)
         for _ in range(200 if q else 3000):
             yield gen_rescale(rng)
+        for _ in range(150 if q else 2500):
+            yield gen_tosa(rng)
+        for i in range(len(declared_kernels())):       # exhaustive in both tiers: every declaration x kind x type grid
+            for kind in KERNEL_KINDS:
+                yield {"kind": "same_kernel", "decl": i, "kernel": kind}
         for _ in range(200 if q else 3000):
             yield gen_dispatch(rng)
         if not q:
@@ -827,6 +933,10 @@ class C18(Prop):
             return self.impl_fused(case)
         if k == "rescale":
             return self.impl_rescale(case)
+        if k == "tosa":
+            return self.impl_tosa(case)
+        if k == "same_kernel":
+            return self.impl_same_kernel(case)
         if k == "dispatch":
             return self.impl_dispatch(case)
         raise ValueError(k)
@@ -930,6 +1040,57 @@ class C18(Prop):
             vals.append([e, g])
         return {"body": oview.body_json(), "vals": vals}
 
+    def impl_tosa(self, case):
+        import numpy as np
+        import snaxrun
+        from snaxc.dialects.kernel import RescaleOp
+        src = render_tosa_case(case)
+        try:
+            mod = snaxrun.parse(src)
+            mod.verify()
+        except Exception as e:
+            return {"invalid_input": type(e).__name__, "msg": str(e)[:200]}
+        omod = snaxrun.parse(snaxrun.run_passes(src, "convert-tosa-to-kernel"))
+        ks = [op for op in omod.walk() if isinstance(op, RescaleOp)]
+        if not ks:
+            return {"kernel": None, "unchanged": snaxrun.text(omod) == snaxrun.text(mod)}
+        assert len(ks) == 1
+        kop = ks[0]
+        params = {"input_zp": kop.input_zp.value.data, "output_zp": kop.output_zp.value.data,
+                  "multiplier": [int(x) for x in kop.multiplier.get_values()], "shift": [int(x) for x in kop.shift.get_values()],
+                  "max_int": kop.max_int.value.data, "min_int": kop.min_int.value.data,
+                  "double_round": bool(kop.double_round.value.data)}
+        res = _width(kop.results[0].type)
+        leftover = any(op.name in ("tosa.rescale", "tosa.clamp") for op in omod.walk())
+        # tosa -> kernel -> arithmetic, interpreted on the inputs
+        lmod = snaxrun.parse(snaxrun.run_passes(src, "convert-tosa-to-kernel,convert-kernel-to-linalg"))
+        lview = BlockView(find_generic(lmod).body.block)
+        vals = []
+        for x in case["xs"]:
+            r = interpret(lview, [[32, x & 0xFFFFFFFF], [res, 0]])
+            vals.append(r[0] if r is not None and len(r) == 1 else None)
+        # reference: the tree's golden model, saturating to the clamp bounds / the signed range of the output type
+        lo, hi = case["clamp"] if case["clamp"] is not None else signed_range(case["out"])
+        ref = []
+        s, m = case["shift"][0], case["multiplier"][0]
+        golden = golden_model()
+        for x in case["xs"]:
+            if 1 <= s <= 63:
+                gv = golden(np.array([x], dtype=np.int64), case["input_zp"], case["output_zp"], s, hi, lo,
+                            int(case["double_round"]), m)
+                ref.append(sgn(32, int(gv[0])))
+            else:
+                ref.append(None)
+        return {"kernel": {"params": params, "res": res}, "leftover_tosa_ops": leftover, "vals": vals, "_ref": ref}
+
+    def impl_same_kernel(self, case):
+        owner, sk = declared_kernels()[case["decl"]]
+        template = [_width(t) for t in sk.operand_types]
+        grid = type_grid(case["kernel"], len(template))
+        accepted = [tys for tys in grid if sk.is_same_kernel(make_kernel_op(case["kernel"], tys))]
+        return {"owner": owner, "supported": [KERNEL_NAMES[sk.kernel_type.name], template], "n": len(grid), "accepted": accepted,
+                "rejects_no_op": sk.is_same_kernel(None) is False}
+
     def impl_dispatch(self, case):
         import snaxrun
         from xdsl.dialects import linalg
@@ -968,6 +1129,18 @@ class C18(Prop):
         if k == "rescale":
             return [{"fn": "c18.rescale_body", "args": {"params": case["params"], "args": case["args"]}},
                     {"fn": "c18.rescale_eval", "args": {"params": case["params"], "ch": case["ch"], "xs": case["xs"]}}]
+        if k == "tosa":
+            reqs = [{"fn": "c18.tosa", "args": {"out": case["out"], "users": case["users"], "clamp": case["clamp"],
+                                                "input_zp": case["input_zp"], "output_zp": case["output_zp"],
+                                                "multiplier": case["multiplier"], "shift": case["shift"],
+                                                "double_round": case["double_round"]}}]
+            if impl_out.get("kernel") is not None:   # the expansion of the kernel the real pass produced
+                reqs.append({"fn": "c18.rescale_eval", "args": {"params": impl_out["kernel"]["params"], "ch": 0, "xs": case["xs"]}})
+            return reqs
+        if k == "same_kernel":
+            sup = impl_out["supported"]
+            return [{"fn": "c18.same_kernel", "args": {"supported": sup, "kernel": case["kernel"],
+                                                       "grid": type_grid(case["kernel"], len(sup[1]))}}]
         if k == "dispatch":
             return self._dispatch_req(case)
         return []
@@ -1012,6 +1185,17 @@ class C18(Prop):
                 vals.append([e, s])
             # the golden model is only called for shifts 1..63 and an existing channel: the model's spec is `none` exactly there
             return {"body": b, "vals": vals}
+        if k == "tosa":
+            r = answers[0]["ok"]
+            if r is None:
+                return {"kernel": None, "unchanged": True}
+            vals = None
+            if len(answers) > 1:
+                vals = [[8, e] if e is not None else None for (e, _) in answers[1]["ok"]]
+            return {"kernel": r, "leftover_tosa_ops": False, "vals": vals}
+        if k == "same_kernel":
+            return {"owner": impl_out["owner"], "supported": impl_out["supported"], "n": impl_out["n"],
+                    "accepted": answers[0]["ok"], "rejects_no_op": True}
         if k == "dispatch":
             r = answers[0]["ok"]
             if isinstance(r, dict):
@@ -1076,9 +1260,71 @@ class C18(Prop):
                     return [{"what": f"body {mb} computes {b} on inputs {i}; after convert-kernel-to-linalg it is "
                                      f"{impl_out['out']} and computes {a}", "finding": "DC18a" if single else None}]
             return []
+        if k == "same_kernel":
+            kind, template = impl_out["supported"]
+            want = [template] if kind == case["kernel"] else []
+            out = []
+            if impl_out["accepted"] != want:
+                wrong = [t for t in impl_out["accepted"] if t not in want] or want
+                out.append({"what": f"{impl_out['owner']} declares kernel.{kind} with element types {template} but "
+                                    f"is_same_kernel accepts kernel.{case['kernel']} with types {impl_out['accepted'][:4]} "
+                                    f"(first wrong: {wrong[0]}; exactly {want} expected out of {impl_out['n']} combinations)",
+                            "finding": None})
+            if not impl_out["rejects_no_op"]:
+                out.append({"what": "is_same_kernel(None) is not False", "finding": None})
+            return out
+        if k == "tosa":
+            kern = impl_out["kernel"]
+            if kern is None:
+                return [] if impl_out["unchanged"] else [{"what": "tosa.rescale not converted but the module changed", "finding": None}]
+            out = []
+            p = kern["params"]
+            lo, hi = case["clamp"] if case["clamp"] is not None else signed_range(case["out"])
+            if case["users"] != 1:
+                out.append({"what": "a tosa.rescale whose result has several users was replaced", "finding": None})
+            if kern["res"] != case["out"] or impl_out["leftover_tosa_ops"]:
+                out.append({"what": f"kernel.rescale result i{kern['res']} for a tosa.rescale to i{case['out']} / tosa ops left over",
+                            "finding": None})
+            if (p["min_int"], p["max_int"]) != (lo, hi):
+                out.append({"what": f"tosa.rescale -> i{case['out']} with clamp {case['clamp']} became kernel.rescale with "
+                                    f"(min_int, max_int) = ({p['min_int']}, {p['max_int']}); tosa semantics saturate to ({lo}, {hi})",
+                            "finding": None})
+            for key in ("input_zp", "output_zp", "multiplier", "shift", "double_round"):
+                if p[key] != case[key]:
+                    out.append({"what": f"kernel.rescale {key} = {p[key]}, tosa.rescale had {case[key]}", "finding": None})
+            # value level: tosa -> kernel -> arithmetic against the saturating reference
+            seen = set()
+            s, m = case["shift"][0], case["multiplier"][0]
+            for x, val, ref in zip(case["xs"], impl_out["vals"], impl_out["_ref"]):
+                if val is None or ref is None:
+                    continue
+                w, v = val
+                if sgn(w, v) == ref:
+                    continue
+                d = x - case["input_zp"]
+                if case["double_round"]:
+                    tag = "D20"
+                elif w != case["out"] and not (-(1 << (w - 1)) <= ref < (1 << (w - 1))):
+                    tag = "DC18c"
+                elif not (-2**31 <= d < 2**31 and -2**31 <= ((d * m) >> (s - 1)) < 2**31):
+                    tag = "DC18b"
+                else:
+                    tag = None
+                if tag in seen:
+                    continue
+                seen.add(tag)
+                out.append({"what": f"tosa.rescale(zp_in={case['input_zp']}, zp_out={case['output_zp']}, mult={m}, shift={s}) -> "
+                                    f"i{case['out']}, clamp {case['clamp']}: input {x}: tosa->kernel->arith gives {sgn(w, v)} (i{w}), "
+                                    f"saturating reference {ref}", "finding": tag})
+            return out
         if k == "rescale":
             p = case["params"]
             if case["args"] != [32, 8]:
+                body = impl_out["body"]
+                yw = ref_width(value_widths(body), body["ret"][0])
+                if yw != case["args"][1]:
+                    return [{"what": f"kernel.rescale (i{case['args'][0]}) -> i{case['args'][1]} expands to a body that yields "
+                                     f"i{yw} (hard-coded truncation to i8)", "finding": "DC18c"}]
                 return []
             ch = case["ch"]
             out = []
@@ -1159,6 +1405,12 @@ class C18(Prop):
             return f"dispatch:{impl_out.get('library_call')}"
         if k == "fused":
             return "fused:kernel-first" if is_kop(case["mbody"]["ops"][0]) else "fused:arith-first"
+        if k == "tosa":
+            if impl_out.get("kernel") is None:
+                return "tosa:not-converted"
+            return f"tosa:i{case['out']}:" + ("clamp" if case["clamp"] is not None else "no-clamp")
+        if k == "same_kernel":
+            return "same_kernel:" + ("own-kind" if impl_out.get("supported", [None])[0] == case["kernel"] else "other-kind")
         if k == "rescale":
             return "rescale:double_round" if case["params"]["double_round"] else "rescale"
         return k
